@@ -31,6 +31,8 @@ from hpstatic.xrnorm import atom_rewrite
 from . import c16
 from .c05 import subst
 
+MUTATION_TARGETS = {'holopy/core/process/img_proc.py': ['normalize', 'detrend', 'zero_filter', 'subimage', 'bg_correct'], 'holopy/core/io/io.py': ['push', 'mean', 'std'], 'holopy/core/prior.py': ['make_center_priors']}
+
 LEVEL = 'other'
 META = dict(
     claimed=True,
